@@ -38,6 +38,10 @@ type skGen struct {
 	nres  int // number of results of the function being translated
 	known map[string]bool
 	lits  map[string]ast.Expr // package-level `const X = <literal>` of the file(s) being translated
+	// local variables of the function being translated whose address is handed to flag.StringVar / BoolVar / ...: after
+	// flag.Parse they hold whatever the command line says, so they are left unbound (an unbound name is an opaque value
+	// named after the variable - exactly how a package-level flag variable is read)
+	flagVars map[string]bool
 }
 
 // literalConsts collects the package-level constants that are defined by a literal (number or string).
@@ -416,6 +420,9 @@ func (g *skGen) stmt(s ast.Stmt) []string {
 						return g.unknown(s)
 					}
 					for _, n := range vs.Names {
+						if g.flagVars[n.Name] {
+							continue
+						}
 						out = append(out, fmt.Sprintf("SDecl %s %s (%s)", coqString(n.Name), coqString(g.src(vs.Type)), zeroOf(g, vs.Type)))
 					}
 					continue
@@ -583,7 +590,21 @@ func (g *skGen) emitFunc(sb *strings.Builder, f skFunc) {
 	if named {
 		body = []string{"SUnknown " + coqString("named results: "+g.src(f.decl.Type))}
 	} else {
+		g.flagVars = map[string]bool{}
+		ast.Inspect(f.decl.Body, func(n ast.Node) bool {
+			if c, ok := n.(*ast.CallExpr); ok && len(c.Args) >= 1 {
+				if p, ok := path(c.Fun); ok && strings.HasPrefix(p, "flag.") && strings.HasSuffix(p, "Var") {
+					if u, ok := c.Args[0].(*ast.UnaryExpr); ok && u.Op == token.AND {
+						if id, ok := u.X.(*ast.Ident); ok {
+							g.flagVars[id.Name] = true
+						}
+					}
+				}
+			}
+			return true
+		})
 		body = g.block(f.decl.Body)
+		g.flagVars = nil
 	}
 	fmt.Fprintf(sb, "Definition sk_%s : list sk := [\n", f.coqName)
 	for i, s := range body {
